@@ -43,6 +43,7 @@ type EnvState struct {
 	udpEmptyReads int
 	jsonVals      map[string]Value
 	httpNext      []Value
+	acct          *acctEnv
 }
 
 func newEnv(in *Interp) *EnvState {
